@@ -233,7 +233,8 @@ def real_cases(draw):
     twod = draw(st.booleans())
     N = draw(st.integers(1, 20 if twod else 64))
     batch = tuple(draw(st.sampled_from([(), (), (2,), (2, 2)])))
-    shape = batch + ((N, N) if twod else (N,))
+    M = draw(st.integers(1, 20)) if (twod and draw(st.integers(0, 2)) == 0) else N          # detector frames are often not square
+    shape = batch + ((M, N) if twod else (N,))
     return {"x": draw(gen.float_array(shape, kind=draw(st.sampled_from(["dense", "dense", "sparse"])))),
             "delta": draw(gen.logfloat(1e-3, 1e3)), "twod": twod, "where": draw(st.sampled_from(["module", "package"]))}
 
@@ -269,6 +270,17 @@ def real_body(ctx, case):
         lhs = float(np.sum(x ** 2) * delta)
         rhs = float(np.sum(w * np.abs(half) ** 2) * df)
         ctx.close(rhs, lhs, TOL, "Hermitian-weighted Parseval on the half spectrum", scale=max(lhs, 1e-300))
+    elif x.shape[-2] != N:
+        # rectangular frame (M, N): with one spacing and delta_f = 1/(N delta), N the last axis as in every other transform,
+        # the 2-D pairs must still be inverse pairs
+        M = x.shape[-2]
+        ctx.classes["rectangular_2d"] += 1
+        ft2, ift2, rft2, irft2 = entry("ft2", where), entry("ift2", where), entry("rft2", where), entry("irft2", where)
+        ctx.close(ift2(ft2(x, delta), df), x.astype(np.complex128), TOL, "ift2(ft2(x, d), 1/(N d)) == x on a %d x %d frame" % (M, N), scale=nx)
+        H = rft2(x, delta)
+        ctx.require(H.shape == x.shape[:-2] + (M, N // 2 + 1), "rft2 shape %s on a %d x %d frame" % (H.shape, M, N))
+        if not skip_rt:
+            ctx.close(irft2(H, df), x, TOL, "irft2(rft2(x, d), 1/(N d)) == x on a %d x %d frame" % (M, N), scale=nx)
     else:
         rft2, irft2 = entry("rft2", where), entry("irft2", where)
         H = rft2(x, delta)
